@@ -147,6 +147,23 @@ func C10(seed uint64, run int) *spec.Spec {
 				return r.Range(lo, hi)
 			}
 		}
+		if lk.API == 0 && lk.Base <= 1843 && r.Chance(0.3) {
+			off := 0
+			switch r.Weighted([]int{45, 25, 20, 10}) {
+			case 0:
+				off = -r.Range(1, 3599)
+			case 1:
+				off = -r.Range(3600, 7199)
+			case 2:
+				off = r.Range(1, 3599)
+			default:
+				off = r.Pick([]int{0, -1, 1})
+			}
+			lk.Tie = &spec.TieRef{Pick: r.U64() >> 1, OffS: off}
+			lk.Why = "tie"
+			s.Lookups = append(s.Lookups, lk)
+			continue
+		}
 		switch k := r.Weighted([]int{34, 12, 14, 12, 20, 8}); {
 		case k == 5 && i > 0:
 			j := r.Intn(i)
